@@ -2,7 +2,7 @@
    Statements only; every proof is `exact` of a lemma proved elsewhere (or a computation on a finite table). *)
 From Coq Require Import List Ascii String Arith Bool.
 Import ListNotations.
-From SP Require Import Skel Gen Expected Str PathLex Format FormatParse FormatCommand.
+From SP Require Import Skel Gen Expected ExpectedCones Str PathLex Format FormatParse FormatCommand.
 From SP Require WfModel FormatPaths.
 From Coq Require Import Permutation.
 Notation length := List.length.
@@ -113,6 +113,18 @@ Theorem C15_missing_fails_examples :
   /\ format_command (s2l "echo {i:x}") {| e_in := []; e_sub := []; e_out := []; e_par := []; e_tag := [] |} = Fail.
 Proof. vm_compute. repeat split; reflexivity. Qed.
 
+(* T1, call cones: every function of scipipe that the functions this property's models stand for can reach (calls and
+   function values, interface calls resolved to every implementation) is one the models were compared with -- a helper that
+   is new to the cone, or a new call of an old one, changes a list (regenerated from /repo on every run; ExpectedCones.v
+   holds the accepted ones) *)
+Theorem C15_cone_conforms :
+  strs_eqb cone_NewTask exp_cone_NewTask
+  && strs_eqb cone_Task_formatCommand exp_cone_Task_formatCommand
+  && strs_eqb cone_applyPathModifiers exp_cone_applyPathModifiers
+  && strs_eqb cone_Process_initPortsFromCmdPattern exp_cone_Process_initPortsFromCmdPattern
+  && strs_eqb cone_Process_initDefaultPathFuncs exp_cone_Process_initDefaultPathFuncs = true.
+Proof. vm_compute. reflexivity. Qed.
+
 Print Assumptions C15_code_conforms.
 Print Assumptions C15_parse_render.
 Print Assumptions C15_replace_pieces.
@@ -124,3 +136,4 @@ Print Assumptions C15_missing_cases.
 Print Assumptions C15_setout_missing_fails.
 Print Assumptions C15_default_path_deterministic.
 Print Assumptions C15_missing_fails_examples.
+Print Assumptions C15_cone_conforms.
